@@ -21,6 +21,8 @@ type Finding struct {
 	Witness    any    `json:"witness,omitempty"`
 	What       string `json:"what"`
 	Commit     string `json:"commit,omitempty"`
+	ID         string   `json:"id,omitempty"`
+	Replay     *Witness `json:"replay,omitempty"`
 }
 
 func loadFindings() []Finding {
@@ -203,6 +205,7 @@ type propRun struct {
 	extraViol   []violation
 	notes       []string
 	assumedSites []string
+	witnesses    []map[string]any
 	unclaimed    int
 }
 
@@ -363,6 +366,35 @@ func (run *propRun) report(id, tier string, seed int, start time.Time, update bo
 		}
 		viols = append(viols, violation{Key: o.Key, Detail: map[string]any{"obligation": o.Key, "kind": o.Kind, "position": o.Pos, "reason": o.Why}})
 	}
+	// findings that are identified by a concrete input for the real tools: replayed on every run
+	{
+		scratch, _ := os.MkdirTemp("", "bklverif-witness-")
+		defer os.RemoveAll(scratch)
+		n := 0
+		for i := range findings {
+			f := &findings[i]
+			if f.Property != id || f.Replay == nil {
+				continue
+			}
+			n++
+			r := runWitness(scratch, f.Replay, n)
+			switch {
+			case f.Kind == "finding" && r.Ran && r.Violates:
+				known[f.ID+" "+f.What+" (witness replayed on the real "+f.Replay.Cmd[0]+": still reproduces)"] = true
+				run.witnesses = append(run.witnesses, map[string]any{"finding": f.ID, "reproduces": true, "stdout": r.Stdout, "stderr": r.Stderr, "exit": r.Exit})
+			case f.Kind == "finding" && r.Ran:
+				run.notes = append(run.notes, "finding "+f.ID+" no longer reproduces on the real tool (its witness now behaves as the property demands)")
+				run.witnesses = append(run.witnesses, map[string]any{"finding": f.ID, "reproduces": false, "stdout": r.Stdout, "exit": r.Exit})
+			case f.Kind == "fixed" && r.Ran && r.Violates:
+				viols = append(viols, violation{Key: "witness:" + f.ID, Input: true, Detail: map[string]any{"obligation": "witness of repaired defect " + f.ID + " (" + f.What + ")",
+					"input": f.Replay, "observed_stdout": r.Stdout, "observed_stderr": r.Stderr, "observed_exit": r.Exit, "note": r.Note}})
+			case f.Kind == "fixed" && r.Ran:
+				run.witnesses = append(run.witnesses, map[string]any{"fixed": f.ID, "reproduces": false})
+			default:
+				run.notes = append(run.notes, "witness of "+f.ID+" could not be run: "+r.Note)
+			}
+		}
+	}
 	// ledger obligations that are no longer generated
 	if ledger != nil && !update {
 		var missing []string
@@ -517,7 +549,7 @@ func (run *propRun) writeEvidence(id, tier string, seed int, start time.Time, to
 		"functions_under_contract": fns, "samples": samples,
 		"distinct_obligation_keys": len(run.aggs) + len(run.ownObs),
 		"known_findings_seen":      known, "unsupported": run.unsupported, "bounded": run.bounded, "notes": append(run.notes, run.w.Notes...),
-		"assumed_obligations": run.assumedSites,
+		"assumed_obligations": run.assumedSites, "witness_replays": run.witnesses,
 		"spec_axioms_used": len(axioms), "lemmas_proved_and_used": keysOf(run.lemmasUsed),
 	}
 	cov["explanation"] = expl
